@@ -336,6 +336,7 @@ theorem applyW_headsIn (op : WOp) (r : Regs) (l : Log) (h : ∀ x ∈ l.heads, x
       exact join_heads_are_entries_any l l' oid r.es r.hs size _ h hj
     · exact h
   | setIdentity cid => exact h
+  | refuse => exact h
 
 /-- **in the concurrent world, for every set of programs and every schedule** (merges racing appends,
     size-bounded merges trimming the source between the two reads of another merge, cross merges, …):
